@@ -1453,7 +1453,8 @@ pub fn run_hist_func(ctx: &Ctx, id: &str) {
 pub fn replay(id: &str, sub: &str, case: &serde_json::Value) -> Option<Result<Outcome, String>> {
     match (id, sub) {
         ("C18", "large-store") => Some(replay_prop(&C18BigStore, case)),
-        ("C18", "file-held-by-another-connection") => Some(replay_prop(&C18Locked, case)),
+        ("C18", "file-held-by-another-connection") => Some(replay_prop(&C18Locked { id: "C18" }, case)),
+        ("C10", "file-held-by-another-connection") => Some(replay_prop(&C18Locked { id: "C10" }, case)),
         ("C20", "gauges-in-real-time") => Some(replay_prop(&C20RealTime, case)),
         ("C01", "ledger") | ("C09", "keeps-address") | ("C10", "lease-time") | ("C13", "frame") => {
             Some(replay_prop(&hist_prop(id), case))
@@ -1598,7 +1599,11 @@ pub struct LockedCase {
     pub before: u8,
 }
 
-pub struct C18Locked;
+pub struct C18Locked {
+    /// the property the sub-check runs under ("C18": the lease is in the file; "C10": the record
+    /// does not end before the advertised time - the same observation)
+    pub id: &'static str,
+}
 
 impl Prop for C18Locked {
     type Case = LockedCase;
@@ -1683,7 +1688,7 @@ impl Prop for C18Locked {
         for (id, ip) in reported.iter().chain(during.iter()) {
             if !rows.iter().any(|r| &r.client == id && r.ip == *ip) {
                 out.fail(
-                    "C18:acknowledged-lease-lost:file-held-by-another-connection",
+                    format!("{}:{}:file-held-by-another-connection", self.id, if self.id == "C10" { "no-record-for-an-advertised-lease" } else { "acknowledged-lease-lost" }),
                     format!(
                         "client {:02x?} was reported {} ({}) but the reopened database has no such row; the pool spent {:.1} s on the allocations made while the file was held; rows: {:?}",
                         id,
@@ -1702,10 +1707,11 @@ impl Prop for C18Locked {
 }
 
 pub fn run_c18_locked(ctx: &Ctx) {
+    let id: &'static str = if ctx.id == "C10" { "C10" } else { "C18" };
     let cases = vec![LockedCase { holder: 0, before: 2 }, LockedCase { holder: 1, before: 2 }, LockedCase { holder: 0, before: 0 }, LockedCase { holder: 1, before: 0 }];
     // the cases mostly wait for SQLite's busy timeout: side by side
     let outs: Vec<(LockedCase, Outcome)> = std::thread::scope(|s| {
-        let hs: Vec<_> = cases.iter().map(|c| s.spawn(move || (c.clone(), exec(&C18Locked, c)))).collect();
+        let hs: Vec<_> = cases.iter().map(|c| s.spawn(move || (c.clone(), exec(&C18Locked { id }, c)))).collect();
         hs.into_iter().map(|h| h.join().unwrap()).collect()
     });
     for (case, out) in outs {
